@@ -315,10 +315,14 @@ func (p *GkrCompressions) finalize(api frontend.API) error {
 	}
 
 	// verify GKR proof
-	allVals := make([]frontend.Variable, 0, 3*len(p.ins1))
+	allVals := make([]frontend.Variable, 0, 2*len(p.ins1)+len(yVals))
 	allVals = append(allVals, p.ins1...)
 	allVals = append(allVals, p.ins2...)
 	allVals = append(allVals, p.outs...)
+	// the outputs of the padding instances are not asserted against anything;
+	// they must be bound by the challenge as well, or a prover could choose
+	// them after the challenge to cancel an error in the real outputs.
+	allVals = append(allVals, yVals[len(p.outs):]...)
 	challenge, err := p.api.(frontend.Committer).Commit(allVals...)
 	if err != nil {
 		return err
